@@ -357,6 +357,11 @@ def c01_5(ctx, ss):
         if _self_attr_store(st, "_parsed_decays") and "DecayModelAliasReplacement" in flow.text(st.value):    # (expanded: the transformer may be built once before)
             steps["alias"] = st
             v = st.value
+            if isinstance(v, ast.Name):
+                # the new list built under a local name first, then stored
+                ds_ = flow.defs_of(v)
+                if len(ds_) == 1 and ds_[0].kind == "assign" and isinstance(ds_[0].value, ast.ListComp):
+                    v = ds_[0].value
             ok = isinstance(v, ast.ListComp) and len(v.generators) == 1 and not v.generators[0].ifs \
                 and txt(v.generators[0].iter) == "self._parsed_decays"
             if ok:
